@@ -17,14 +17,16 @@ var extraNotes4 = map[string][2]string{
 	"C40": {"ordering rule for subscription vs unsubscription", "(O1) Subscribe queues the subscription before starting the unsubscribing goroutine, and either both travel on one channel or the unsubscription branch of process first receives len(subInfoChan) queued subscriptions before loading the subscriber list."},
 	"C21": {"derived-answer rule for the queries", "(P3) Length / BinSize / BinPeers / ShallowestEmpty / Exists read no field of the set other than the bins, the lock and the fixed configuration (sufficient condition: a cached size would be reported for review)."},
 	"C32": {"atomic test-and-record in Debit", "(Lk2) Debit calls TransferTraffic (the read deciding the refusal) and PutTransferTraffic (the record) with the peer's lock held."},
-	"C38": {"goroutine / loop-variable rule", "(Y1) no goroutine started inside a loop in pkg/multicast reads a variable that the loop overwrites per iteration (shared loop variable under the module's go 1.17 semantics)."},
+	"C38": {"goroutine / loop-variable rule", "(Y1) no goroutine started inside a loop in pkg/multicast reads a variable that the loop overwrites per iteration (shared loop variable under the module's go 1.17 semantics); (Lk2) every cache.SetIfNotExist call of pkg/multicast (Contains + Set in the library, not atomic) is made with a mutex of the multicast service write-held; (P2) the lifetime handed to it is a constant or a package variable, not computed from the message."},
 	"C15": {"guard rule for HasPin", "(G3) HasPin can answer true only where the state-store Get under rootPinKey(ref) returned no error."},
-	"C27": {"key/items agreement; persist-after-update pairing", "(A3) in generatePathItems the append feeding the hash and the append building the item list both run on every iteration of the loop; (F2) every assignment to Table.routes[target] outside the reload callback is followed on all paths by a store.Put of the same list under route_index_."},
+	"C27": {"key/items agreement; persist-after-update pairing", "(A3) in generatePathItems the append feeding the hash and the append building the item list both run on every iteration of the loop; (F2) every assignment to Table.routes[target] outside the reload callback is followed on all paths by a store.Put of the same list under route_index_; (W2) Table.paths.Delete and store.Delete under the path prefix occur only in Table.Delete and ResumePaths."},
 	"C02": {"accumulator rule for the intermediate span", "(H2 ext) the span accumulator of wrapFullLevel has no incoming value other than the constant 0 and accumulator + entry span, and the addition runs on every iteration."},
 	"C05": {"fresh-storage rule; low-s rule", "(W2) no append in pkg/soc starts from a SOC field or a parameter (the serialisation never writes into the caller's id / signature storage); (G4) RecoverCompact in crypto.Recover is reached only behind big(signature[32:64]).Cmp(half order) <= 0."},
 	"C06": {"every-iteration rule of the pyramid validation", "(G2 ext) the validation loop of GetChunkHashes returns to its head only from the edge where the entry's BMT hash equals its key."},
 	"C11": {"window of the in-call duplicate test; stale committed read", "(P5) put's duplicate test is containsChunk(chs[i].Address(), chs[:i]...) and the store helpers run only behind its negative answer; (B2) inside put's per-chunk loop no helper reads the data index from committed state under a key that is the same for every chunk of the call, unless the read lies behind a committed entry of another index under that key — the one site that does (setGC, the root's BinID) is an open finding."},
 	"C28": {"sign-once rule", "(W2) a function of pkg/routetab that extends a field of the message it is given (msg.Paths = generatePaths(msg.Paths)) is not called inside a loop with an argument that is the same object on every iteration."},
+	"C24": {"guard rule for removals from the known set", "(G3) every knownPeers.Remove(p) is preceded in its function by connectedPeers.Remove(p) or lies behind connectedPeers.Exists(p) == false."},
+	"C37": {"error-then-dereference rule", "(S10) the pointer result of a (pointer, error) call whose arguments are peer-controlled (also through library parsers) is dereferenced only behind the edge on which that error is nil, or the pointer was tested non-nil."},
 	"C20": {"scan-width rule", "(K1) the byte limit of the comparison loop in Proximity / ExtendedProximity starts from a constant K with K*8 >= the function's own cap (MaxPO / ExtendedPO)."},
 }
 
